@@ -21,6 +21,16 @@ _WIP = "check not built yet in this session (design in DESIGN.md section 6); not
 NOT_APPLICABLE = {("C%02d" % i): _WIP for i in range(1, 21)}
 
 PROPS = {
+    "C08": {
+        "engine": "c08",
+        "technique": "Coq proof (UTF-8 decoder vs RFC 3629 encoder, JSON string grammar, decimal printer/parser round trip) + differential correspondence of writeQuotedString, integer marshalers/unmarshalers, FieldSet/Array against the model",
+        "level_text": "Theorems for every byte string (no validity hypothesis): the escaper's output is valid UTF-8 and a JSON string literal denoting the input with each offending byte replaced by U+FFFD (identity on valid input); Go's range decoding accepts exactly RFC 3629 encodings; every integer of every width prints to a JSON number token that parses back through gqlgen's own decoding and unmarshaler; the pre-repair escaper is refuted. Library formatters (%g, time, duration, uuid, encoding/json for Map/Any) are outside the model: validated and round-tripped by the harness only (partial).",
+        "level_note": "Trusted: Coq kernel + vm_compute; harness; strconv.Itoa/FormatInt/ParseInt are modelled (digit loop) and checked by correspondence; float text, time.Format, uuid, sosodev/duration, encoding/json are not modelled (partial). Composition of objects/lists is modelled as the punctuation writer and compared byte-for-byte; its JSON validity is judged by encoding/json in the harness.",
+        "trusted": ["strconv integer formatting/parsing modelled as a digit loop (20 digits of fuel; theorems stated for |z| < 10^20)",
+                    "library formatters (fmt %g, time.Format, uuid.String, duration.Format, encoding/json) validated by encoding/json in the harness, not modelled"],
+        "assumptions": ["JSON decoding of the written bytes back to Go values is gqlgen's own (encoding/json with UseNumber), trusted",
+                        "executable monitors (json_unquote, utf8_validb) restate the relational specification; they are run on the model's own output in every check (monmodel) but their agreement with the relations is not itself proved"],
+    },
     "C15": {
         "engine": "c15",
         "technique": "Coq proof (invariant by induction over request histories, any hash function, map/LRU cache) + differential correspondence against the real APQ extension over exhaustive short and random long histories",
